@@ -1048,6 +1048,9 @@ class Engine:
                 return c.summary(self, pos, kw)
             return self.call_function(f, pos, kw)
         if isinstance(f, RepoClass):
+            cs = self.contracts.get("__class_summaries", {})
+            if f.name in cs:
+                return cs[f.name](self, pos, kw)      # modular constructor: the class is under its own contract elsewhere
             obj = Obj(cls=f)
             init = f.lookup("__init__")
             if init is not None:
@@ -1677,6 +1680,11 @@ class Engine:
                 return b_not(v)
             return not self.truth(v)
         if isinstance(e.op, ast.USub):
+            if isinstance(v, Obj):
+                m = v.cls.lookup("__neg__") if v.cls else None
+                if isinstance(m, PyFunc):
+                    return self.call(m, [v], {})
+                self.py_raise("TypeError", "bad operand type for unary -")
             return -v
         if isinstance(e.op, ast.UAdd):
             return +v
@@ -1689,8 +1697,27 @@ class Engine:
     def e_BinOp(self, e, env):
         return self.binop(e.op, self.eval(e.left, env), self.eval(e.right, env))
 
+    _DUNDER = {ast.Add: ("__add__", "__radd__"), ast.Sub: ("__sub__", "__rsub__"), ast.Mult: ("__mul__", "__rmul__"),
+               ast.Div: ("__truediv__", "__rtruediv__")}
+
+    def obj_binop(self, op, a, b):
+        names = self._DUNDER.get(type(op))
+        if names is None:
+            raise Unsupported("operator %s on objects" % type(op).__name__)
+        if isinstance(a, Obj):
+            m = a.cls.lookup(names[0]) if a.cls else None
+            if isinstance(m, PyFunc):
+                return self.call(m, [a, b], {})
+        if isinstance(b, Obj):
+            m = b.cls.lookup(names[1]) if b.cls else None
+            if isinstance(m, PyFunc):
+                return self.call(m, [b, a], {})
+        self.py_raise("TypeError", "unsupported operand type(s)")
+
     def binop(self, op, a, b, inplace=False):
         import operator as O
+        if isinstance(a, Obj) or isinstance(b, Obj):
+            return self.obj_binop(op, a, b)
         if isinstance(a, list) and isinstance(b, SymSeq):
             return b.__radd__(a)
         if isinstance(op, ast.Div):
